@@ -446,7 +446,24 @@ func (x *Engine) applyContract(fr *Frame, st *State, fs *FuncSpec, sig *types.Si
 		}
 		ro := x.oblige(st, fmt.Sprintf("call[%s#%d].requires", shortKey(key), x.ordinals["call:"+key]), lab, g, c.Text+" (call at "+pos+")", pos)
 		if len(c.Props) > 0 && ro != nil {
-			ro.Props = c.Props
+			ro.Props, ro.Tagged = c.Props, true
+		}
+	}
+	if len(x.guards) > 0 && x.guardProp(x.curProp) {
+		// a callee with a lock precondition is entered holding exactly the locks it names
+		hasLockPre := false
+		for _, c := range fs.Requires {
+			if len(c.Props) > 0 && hasProp(c.Props, x.curProp) && strings.Contains(c.Text, "lockcount(") {
+				hasLockPre = true
+			}
+		}
+		if cp := x.pkgByPath(fs.Pkg); hasLockPre && cp != nil {
+			for k, t := range x.notHeldTerms(st, cp, fs) {
+				ro := x.oblige(st, fmt.Sprintf("call[%s#%d].requires", shortKey(key), x.ordinals["call:"+key]), fmt.Sprintf("other-locks-not-held-%d", k+1), t, "the callee is entered holding only the locks its precondition names (call at "+pos+")", pos)
+				if ro != nil {
+					ro.Props, ro.Tagged = []string{x.curProp}, true
+				}
+			}
 		}
 	}
 	if fs.Pure {
